@@ -424,8 +424,9 @@ class InnateImmunity:
         # Phase 2: Complement System (Structural Validation)
         for validator in self.validators:
             valid, error = validator.validate(content)
-            if not valid and error:
-                structural_errors.append(error)
+            if not valid:
+                # The protocol allows a rejection without a message
+                structural_errors.append(error or f"Rejected by {type(validator).__name__}")
 
         # Calculate inflammation response
         inflammation = self._evaluate_inflammation(
